@@ -137,6 +137,13 @@ func (p *Pair[K, V]) String() string {
 	return fmt.Sprintf("%v=%v", p.Key, p.Val)
 }
 
+var weekdays = [...]string{"mon", "tue", "wed"}
+
+func tableOf(n int) [3]int {
+	sizes := [...]int{1, 2, n}
+	return sizes
+}
+
 func worker(in <-chan int, out chan<- string, done chan struct{}) (n int, err error) {
 outer:
 	for {
